@@ -49,10 +49,15 @@ namespace AIToolbox {
                 sum += v[i];
             }
         }
-        if (checkEqualSmall(sum, 1.0)) return retval;
+        if (checkEqualSmall(sum, 1.0)) {
+            // The non-negative part is already a probability; we only drop
+            // the negative elements.
+            retval.array() *= v.array();
+            return retval;
+        }
         if (checkEqualSmall(sum, 0.0)) {
             // Any solution here would do, but this seems nice.
-            retval.array() += 1.0 / v.size();
+            retval.fill(1.0 / v.size());
         } else if (sum > 1.0) {
             // We normalize the vector.
             retval.array() *= v.array() / sum;
